@@ -5,18 +5,21 @@
    (i,j) positions of the nonzeros of the k-th Kronecker factor (0-based, any order, no
    duplicates).  The compact data tensor has shape (Len(bidx_1), ..., Len(bidx_L)), C order.
 
-   Declarative side (independent of the code):
-     NonzeroAll / Nonzero   positions in compact-layout order (+ lower-triangular filter)
-     Den                    the matrix denoted by (structure, data) as a set of <<I,J,v>>
-     KronDense              explicit blockwise Kronecker product of the factor matrices
-     ForRow, Transpose, DenPerm (level reordering), MatVec, ToML/FromML, FromReordered,
-     SparsityIJ (support overlap of two knot vectors by knot VALUES), Banded, DenseIJ.
+   Declarative side (independent of the code), in two formulations that are cross-checked (DefsAgree):
+     KronPos / NonzeroAll / Nonzero   the Kronecker recursion (A (x) B)[i1*m2+i2, j1*n2+j2], enumerated with the
+                            last level fastest = compact-layout order (+ lower-triangular filter)
+     DenOrd / Den           the matrix denoted by (structure, data) as a set of <<I,J,v>>, levels in any order
+     NonzeroDigits, KronDense, DenPerm   the same by index digits / explicit dense Kronecker product /
+                            permutation of the digits of the row and column index
+     ForRow, Transpose, MatVec, ToML/FromML, FromReordered,
+     SparsityIJ (support overlap of two knot vectors by knot VALUES), Banded, dense index lists.
    Code-shaped side:
      the odometer loop of ml_nonzero_nd as actions Begin / EmitStep / CarryStep
-     (Buggy = TRUE: initial column cursor bidx_ptr[0][1] as the code has it today),
+     (Buggy = TRUE: initial column cursor bidx_ptr[0][1] as the code had it),
      Nonzero2D / Nonzero3D / Matvec2D / Matvec3D as nested folds (BuggyY = TRUE: y allocated
-     with len(x) entries as MLMatrix._matvec does today), ReorderS/ReorderData, the
-     mesh-index searchsorted loop of compute_sparsity_ij, sequential_bidx.
+     with len(x) entries as MLMatrix._matvec did), ReorderS/ReorderData, SparsityCode = the
+     mesh-index searchsorted loop of compute_sparsity_ij, SeqBidx.
+   Buggy / BuggyY = TRUE and the invariant KVAnyMeshOK are negative controls: TLC must report a violation.
 
    A run explores a SUITE (constant Suite) = a set of families; the family is chosen in the initial
    state (variable fam) and fixes mode, number of levels, block shapes, pattern alphabet, bidx order,
